@@ -201,6 +201,9 @@ func (c *ctl) listing(p *pend) *simreg.Reply {
 	}
 	sort.Strings(names)
 	filter := p.rq.Query.Get("artifactType")
+	if c.sc.Seed%2 == 1 {
+		filter = "" // a registry that does not filter on its side (no OCI-Filters-Applied): the client has to
+	}
 	ms := []any{}
 	for _, n := range c.permute(names, func(string) bool { return false }) {
 		nd := c.w.nodes[n]
